@@ -20,10 +20,10 @@ import searchmc
 import vlib
 from vlib import ToolError, log
 
-TIERS = {"quick": dict(cap=4000, samples=12, maxdepth=4, shards=16, wall=3,
+TIERS = {"quick": dict(cap=4000, samples=12, maxdepth=4, shards=16, wall=3, wall_seq=2, wall_long=1500,
                        wall_go=["go movetime 0", "go movetime 5", "go movetime 20", "go movetime 400", "go wtime 15000 btime 15000 winc 0 binc 0",
                                 "go wtime 5100 btime 5100 winc 0 binc 0"]),
-         "thorough": dict(cap=60000, samples=150, maxdepth=6, shards=16, wall=16,
+         "thorough": dict(cap=60000, samples=150, maxdepth=6, shards=16, wall=16, wall_seq=8, wall_long=4000,
                           wall_go=["go movetime 0", "go movetime 1", "go movetime 5", "go movetime 9", "go movetime 20", "go movetime 400", "go movetime 1500",
                                    "go wtime 5100 btime 5100 winc 0 binc 0", "go wtime 3000 btime 3000 winc 0 binc 0", "go wtime 1 btime 1", "go wtime 15000 btime 15000 winc 0 binc 0",
                                    "go btime 9000 wtime 9000 binc 300 winc 300", "go depth 40 movetime 250"])}
@@ -132,6 +132,25 @@ def run(prop, tier, seed):
                     break
             wall.append({"ev": "wall", "fen": fen, "pos": vlib.fen_to_struct(fen), "go": go, "budget_ms": ms,
                          "overrun_ms": [int(round(x)) for x in overs], "answered": st == "fence"})
+        # ... and SEQUENCES in one process: a long timed search, then a short one (whatever the timer keeps from one search to the
+        # next - a cached answer of the stop test, a counter that is not rewound - shows only in the second search)
+        for fen in (WALL_EXTRA[3:] + _fens())[:T["wall_seq"]]:
+            overs, st = [], None
+            for rep in range(WALL_REPS):
+                e = proc.Engine(eng)
+                try:
+                    e.command("position fen %s 0 1" % fen, "position", 20)
+                    e.command("go movetime %d" % T["wall_long"], "go", 60)
+                    t0 = time.time()
+                    lines, st = e.command("go movetime 30", "go", 60)
+                    dt = (time.time() - t0) * 1000
+                finally:
+                    e.kill()
+                overs.append(round(dt - 30, 1))
+                if st != "fence" or dt - 30 <= WALL_TOL_MS:
+                    break
+            wall.append({"ev": "wall", "fen": fen, "pos": vlib.fen_to_struct(fen), "go": "go movetime 30 (second search of the process, after go movetime %d)" % T["wall_long"],
+                         "budget_ms": 30, "overrun_ms": [int(round(x)) for x in overs], "answered": st == "fence"})
         # the verdict is TLC's (PromptTrace.tla, action TWall): answered, and the smallest overrun within the tolerance
         wtp = os.path.join(work, "wall.ndjson")
         with open(wtp, "w") as f:
